@@ -10,7 +10,7 @@ def run(ctx: Ctx) -> int:
     ctx.functions_encoded = ["tracing/object.py: GuppyObject.__init__, GuppyObject._use_wire, ObjectUse, GuppyObjectId, GuppyStructObject.__init__/__getattr__/__setattr__",
                              "tracing/frozenlist.py: frozenlist (every override; the method list is taken from dir(list) at run time)", "tracing/util.py: get_calling_frame"]
     ctx.bounds = {"object": "copy/drop bounds symbolic (copyable => droppable), created used or unused, 0..3 uses", "frozenlist": "lists of 0..3 elements, every callable attribute of list x 11 argument tuples (solver-enumerated), "
-                  "6 in-place statement forms", "struct": "frozen or not, 2 fields + 1 unknown name, symbolic value"}
+                  "6 in-place statement forms", "struct": "frozen or not, fields of copyable (int) or non-copyable (array, qubit-like) type, 2 fields + 1 unknown name, symbolic value"}
     ctx.outside_claim = ["the end-of-function leak report in trace_function and guppy_object_from_py's checks at call boundaries (need a HUGR builder)", "explicit re-initialisation frozenlist.__init__(...) and object.__setattr__ bypasses",
                          "which containers unpack_guppy_object freezes"]
     ctx.assumptions = ["stand-in tracing state exposing unused_undroppable_objs", "copyable => droppable for every Guppy type"]
